@@ -129,6 +129,7 @@ type prog struct {
 	n2xx      map[string]int
 	first501  map[string]string
 	queue     []*op
+	mpuKeys   map[string]bool // bucket/key of every multipart upload generated so far (acknowledged or still queued)
 	stepNo    int
 	abort     bool
 	addrs     []string
